@@ -5,6 +5,7 @@
   (no program can: the name is the compiler's) the two agree on X, Y and every memory cell except `cctmp`.
 -/
 import CV.GenStruct
+import CV.Proofs.GenRegLemmas
 set_option linter.unusedSimpArgs false
 set_option linter.unusedVariables false
 set_option linter.constructorNameAsVariable false
@@ -53,6 +54,7 @@ def lexprNames : LExpr → List Atom
 def gexprNames : GExpr → List Atom
   | .atom a => a.names
   | .bin l _ r => gexprNames l ++ gexprNames r
+  | .sh e _ _ => gexprNames e
 
 def _root_.CV.GenReg.RStmt.names : RStmt → List Atom
   | .expr v e => v.names ++ gexprNames e
@@ -71,6 +73,8 @@ def Cond.names : Cond → List Atom
   | .truth v | .nottruth v => v.names
   | .and a b | .or a b => Cond.names a ++ Cond.names b
   | .not c => Cond.names c
+  | .cmpE _ e b _ => gexprNames e ++ b.names
+  | .truthE e => gexprNames e
 
 def SStmt.names : SStmt → List Atom
   | .flat s => s.names
@@ -522,6 +526,57 @@ theorem evalPlan_pure (L : Layout) (σ : SrcSt) (a : Byte) (op : BOp) (st : ES) 
         refine ⟨?_, trivial, by simp [hlb, hrb, htu]⟩
         simp [tmpWrite, hnr]
 
+/-- a shift: the value is the shifted value of the operand, every live value is kept -/
+theorem evalShift_pure (L : Layout) (σ : SrcSt) (a : Byte) (st : ES) (t : ET) (left : Bool) (k : Nat)
+    (hT : ¬ InStack (L "cctmp")) (hok : shiftOK st t k = true) (ht : ∀ x, t = .atm x → NoTmp L x.names)
+    (htm : t = .tmp → st.tmpU = true) :
+    EqOff L (evalShift L σ a st t left k).1 σ ∧
+    leftVal L (evalShift L σ a st t left k).1 (evalShift L σ a st t left k).2 (if shSave st t then .tmp else .acc)
+      = shVal left k (leftVal L σ a t) ∧
+    (st.acc = true → t ≠ .acc → (evalShift L σ a st t left k).2 = a ∧ shSave st t = true) ∧
+    (st.tmpU = true → t ≠ .tmp →
+      (evalShift L σ a st t left k).1.mem.read (L "cctmp") = σ.mem.read (L "cctmp") ∧ shSave st t = false ∧ (shSt st t).tmpU = true) ∧
+    (shSave st t = true → (shSt st t).tmpU = true) := by
+  by_cases hs : shSave st t = true
+  · have e1 : EqOff L (pushS σ a) σ := pushS_eqOff L σ a
+    have hc1 : (pushS σ a).mem.read (L "cctmp") = σ.mem.read (L "cctmp") := by
+      have := (stackAddr_not_tmp L hT σ.sp).symm
+      simp [pushS, this]
+    have hvl := leftVal_eq L a t e1 hc1 ht
+    have hspp : (pushS σ a).sp + 1 = σ.sp := by
+      show σ.sp - 1 + 1 = σ.sp
+      bv_omega
+    have hpull : ∀ v, ((pushS σ a).mem.write (L "cctmp") v).read (Cpu.stackAddr σ.sp) = a := by
+      intro v
+      have hne := stackAddr_not_tmp L hT σ.sp
+      rw [Mem.read_write_other _ _ _ _ hne]
+      simp [pushS]
+    simp only [evalShift, hs, if_true, hvl]
+    refine ⟨?_, ?_, ?_, ?_, fun _ => by simp [shSt, hs]⟩
+    · simp only [pullS, setTmp]
+      exact (tmpStore_eqOff L _ _).trans e1 |> fun h => ⟨h.1, h.2.1, h.2.2⟩
+    · simp [pullS, setTmp, leftVal]
+    · intro _ _
+      refine ⟨?_, trivial⟩
+      simp only [pullS, setTmp, hspp]
+      exact hpull _
+    · intro htu hnt
+      exfalso
+      have : shTmp st t = true := by
+        have : (t == ET.tmp) = false := by cases t <;> simp_all
+        simp [shTmp, this, htu]
+      simp [shiftOK, hs, this] at hok
+  · have hs' : shSave st t = false := by simpa using hs
+    simp only [evalShift, hs', Bool.false_eq_true, if_false]
+    refine ⟨EqOff.refl L σ, rfl, ?_, ?_, fun h => by simp at h⟩
+    · intro hacc hne
+      exfalso
+      have : (t != ET.acc) = true := by cases t <;> simp_all
+      simp [shSave, hacc, this] at hs'
+    · intro htu hnt
+      have : (t == ET.tmp) = false := by cases t <;> simp_all
+      exact ⟨trivial, trivial, by simp [shSt, hs', shTmp, this, htu]⟩
+
 /-- every expression tree the generator accepts: the run specified step by step (`evalE`: scratch cell, pushes and
     pulls) ends with the plain value of the tree where the generator says it is, and with every live value kept:
     the accumulator when it held an outer operand, the scratch cell when it was taken -/
@@ -597,36 +652,38 @@ theorem evalE_pure (L : Layout) (τ : SrcSt) : ∀ (e : GExpr) (σ : SrcSt) (a :
           · simp [hs] at e
         · intro _; exact p7
 
-/-- the step-by-step specification is defined wherever the generator goes through -/
-theorem evalE_defined {α : Type} (n : α) (r : Atom → α) (L : Layout) : ∀ (e : GExpr) (st : ES) (c : List (Mn × α)) (t : ET) (st' : ES)
-    (σ : SrcSt) (a : Byte), genE n r st e = some (c, t, st') → ∃ q, evalE L σ a st e = some (q, t, st') := by
-  intro e
-  induction e with
-  | atom x =>
-    intro st c t st' σ a h
-    simp only [genE, Option.some.injEq, Prod.mk.injEq] at h
-    exact ⟨(σ, a), by simp [evalE, h.2.1, h.2.2]⟩
-  | bin l op rr ihl ihr =>
-    intro st c t st' σ a h
-    simp only [genE] at h
-    cases hl : genE n r st l with
-    | none => simp [hl] at h
+  | sh e left k ih =>
+    intro σ a st q t st' h hn hev
+    simp only [evalE] at hev
+    cases he : evalE L σ a st e with
+    | none => simp [he] at hev
     | some x =>
-      obtain ⟨cl, tl, s1⟩ := x
-      simp only [hl] at h
-      cases hr : genE n r s1 rr with
-      | none => simp [hr] at h
-      | some y =>
-        obtain ⟨cr, tr, s2⟩ := y
-        simp only [hr, arithm] at h
-        cases hp : plan s2 tl op tr with
-        | none => simp [hp] at h
-        | some p =>
-          simp only [hp, Option.map_some, Option.some.injEq, Prod.mk.injEq] at h
-          obtain ⟨q1, e1⟩ := ihl st cl tl s1 σ a hl
-          obtain ⟨q2, e2⟩ := ihr s1 cr tr s2 q1.1 q1.2 hr
-          refine ⟨evalPlan L q2.1 q2.2 op p, ?_⟩
-          simp only [evalE, e1, e2, evalArithm, hp, Option.map_some, h.2.1, h.2.2]
+      obtain ⟨⟨σ1, a1⟩, t1, s1⟩ := x
+      simp only [he] at hev
+      by_cases hok : shiftOK s1 t1 k = true
+      · simp only [hok, if_true, Option.some.injEq, Prod.mk.injEq] at hev
+        obtain ⟨hq, ht, hst⟩ := hev
+        obtain ⟨l1, l2, l3, l4, l5, l6, l7⟩ := ih σ a st _ _ _ h hn he
+        simp only at l1 l2 l4 l5
+        obtain ⟨p1, p2, p4, p5, p6⟩ := evalShift_pure L σ1 a1 s1 t1 left k hn.1 hok l3 l6
+        subst hq; subst ht; subst hst
+        refine ⟨p1.trans l1, ?_, ?_, ?_, ?_, ?_, ?_⟩
+        · rw [p2, l2]; rfl
+        · intro x hx; split at hx <;> cases hx
+        · intro hacc
+          obtain ⟨e1, e2, e3⟩ := l4 hacc
+          obtain ⟨g1, g2⟩ := p4 e3 e2
+          exact ⟨by rw [g1, e1], (by rw [g2]; intro e; cases e), rfl⟩
+        · intro htu
+          obtain ⟨e1, e2, e3⟩ := l5 htu
+          obtain ⟨g1, g2, g3⟩ := p5 e3 e2
+          exact ⟨by rw [g1, e1], (by rw [g2]; intro e; cases e), g3⟩
+        · intro e
+          by_cases hs : shSave s1 t1 = true
+          · exact p6 hs
+          · simp [hs] at e
+        · intro _; rfl
+      · simp [hok] at hev
 
 /-- one statement: the specification with scratch cell and the plain reading agree off the scratch cell -/
 theorem rspec_pure (L : Layout) {σ τ : SrcSt} (h : EqOff L σ τ) (st : RStmt) (hn : NoTmp L st.names) :
@@ -663,6 +720,11 @@ theorem rspec_pure (L : Layout) {σ τ : SrcSt} (h : EqOff L σ τ) (st : RStmt)
         cases e with
         | atom x => simp [GExpr.ok] at hok
         | bin l op rr =>
+          simp only [GExpr.ok] at hok
+          split at hok
+          · rename_i c st' hg; exact ⟨c, st', hg⟩
+          · cases hok
+        | sh e1 l k =>
           simp only [GExpr.ok] at hok
           split at hok
           · rename_i c st' hg; exact ⟨c, st', hg⟩
@@ -722,6 +784,41 @@ theorem rspec_pure (L : Layout) {σ τ : SrcSt} (h : EqOff L σ τ) (st : RStmt)
     exact binWSpec_eqOff L h s op (.wvar s) a ⟨hn.1, fun v hv => hs.2 v (by simp [WA.lo, Atom.names] at hv; simp [hv])⟩
       ⟨hn.1, fun v hv => hs.2 v (by simp [WA.hi, Atom.names] at hv; simp [hv])⟩ (NoTmp.right (NoTmp.left hn)) (NoTmp.right hn)
 
+/-- the value of a tree does not depend on the compiler's own cells -/
+theorem treeVal_eqOff (L : Layout) {σ τ : SrcSt} (h : EqOff L σ τ) (e : GExpr) (hn : NoTmp L (gexprNames e)) :
+    treeVal L σ e = treeVal L τ e := by
+  have hsh := evalE_shape L e σ τ 0 0 {}
+  unfold treeVal
+  cases h1 : evalE L σ 0 {} e with
+  | none =>
+    cases h2 : evalE L τ 0 {} e with
+    | none => rfl
+    | some y => rw [h1, h2] at hsh; simp at hsh
+  | some x =>
+    cases h2 : evalE L τ 0 {} e with
+    | none => rw [h1, h2] at hsh; simp at hsh
+    | some y =>
+      obtain ⟨q1, t1, s1⟩ := x
+      obtain ⟨q2, t2, s2⟩ := y
+      rw [h1, h2] at hsh
+      simp only [Option.map_some, Option.some.injEq, Prod.mk.injEq] at hsh
+      obtain ⟨ht, hs⟩ := hsh
+      subst ht; subst hs
+      cases t1 with
+      | atm x => rfl
+      | tmp => rfl
+      | acc =>
+        obtain ⟨_, p1, _⟩ := evalE_pure L τ e σ 0 {} q1 .acc s1 h hn h1
+        obtain ⟨_, p2, _⟩ := evalE_pure L τ e τ 0 {} q2 .acc s1 (EqOff.refl L τ) hn h2
+        obtain ⟨σ1, a1⟩ := q1
+        obtain ⟨σ2, a2⟩ := q2
+        simp only [leftVal] at p1 p2
+        simp only
+        rw [p1, p2]
+
+theorem val_eqOff (L : Layout) {σ τ : SrcSt} (h : EqOff L σ τ) (b : Atom) (hn : NoTmp L b.names) :
+    val L σ.mem σ.x σ.y b = val L τ.mem τ.x τ.y b := rval_eqOff L h (.of b) hn
+
 theorem evalCond_eqOff (L : Layout) {σ τ : SrcSt} (h : EqOff L σ τ) (c : Cond) (hn : NoTmp L c.names) :
     evalCond L σ c = evalCond L τ c := by
   induction c with
@@ -733,6 +830,12 @@ theorem evalCond_eqOff (L : Layout) {σ τ : SrcSt} (h : EqOff L σ τ) (c : Con
   | and a b iha ihb => simp only [evalCond]; rw [iha (NoTmp.left hn), ihb (NoTmp.right hn)]
   | or a b iha ihb => simp only [evalCond]; rw [iha (NoTmp.left hn), ihb (NoTmp.right hn)]
   | not c ih => simp only [evalCond]; rw [ih hn]
+  | cmpE op e b eLeft =>
+    simp only [evalCond]
+    rw [treeVal_eqOff L h e (NoTmp.left hn), val_eqOff L h b (NoTmp.right hn)]
+  | truthE e =>
+    simp only [evalCond]
+    rw [treeVal_eqOff L h e hn]
 
 /-- the two readings of an outcome: both undefined, or both defined, ending the same way and equal off the scratch cell -/
 def OutEq (L : Layout) : Option Out → Option Out → Prop
